@@ -668,6 +668,28 @@ func slashTest(atoms []Atom) (t likeTest) {
 		lo, _ := lenRange(atoms, subj)
 		t.minLen = lo
 		t.ok = true
+		return t
+	}
+	// the same test through the library: strings.HasPrefix(x, "/") && strings.HasSuffix(x, "/") holds
+	// exactly for the texts of length ≥ 1 that start and end with a slash
+	pre, suf := "", ""
+	for _, a := range atoms {
+		if a.Kind != "call" || !a.Pos || !strings.HasSuffix(a.Val, `,"/"`) {
+			continue
+		}
+		switch a.Subj {
+		case "strings.HasPrefix":
+			pre = strings.TrimSuffix(a.Val, `,"/"`)
+		case "strings.HasSuffix":
+			suf = strings.TrimSuffix(a.Val, `,"/"`)
+		}
+	}
+	if pre != "" && pre == suf {
+		lo, _ := lenRange(atoms, pre)
+		if lo < 1 {
+			lo = 1
+		}
+		t.minLen, t.offset, t.ok = lo, 0, true
 	}
 	return t
 }
